@@ -757,7 +757,7 @@ MIRI_DIR = os.path.join(vlib.ROOT, 'miri')
 def miri_tests():
     import re
     out = {}
-    for f in ('scenarios', 'leaky'):
+    for f in ('scenarios', 'leaky', 'more'):
         txt = open(os.path.join(MIRI_DIR, 'tests', f + '.rs')).read()
         for m in re.finditer(r'#\[test\]\s*fn\s+(c\d\d_\w+)\s*\(\)\s*\{', txt):
             # the body, for the replay file
@@ -1732,9 +1732,9 @@ _c15_old_side = PROPS['C15']['side_obligations']
 PROPS['C15']['side_obligations'] = lambda facts: _c15_old_side(facts) + c15_side(facts)
 PROPS['C09']['streams'] = PROPS['C09']['streams'] + [DPANIC_STREAM]
 # miri scenarios per property
-for _pid, _pre in (('C01', ['c01_', 'c04_']), ('C02', ['c02_']), ('C03', ['c03_']), ('C04', ['c04_']), ('C05', ['c06_', 'c01_thin', 'c01_union', 'c09_']),
+for _pid, _pre in (('C01', ['c01_', 'c04_']), ('C02', ['c02_']), ('C03', ['c03_']), ('C04', ['c04_']), ('C05', ['c05_', 'c06_', 'c01_thin', 'c01_union', 'c09_']),
                    ('C06', ['c06_']), ('C07', ['c07_']), ('C08', ['c08_']), ('C09', ['c09_']), ('C10', ['c10_', 'c01_thin']), ('C11', ['c11_']),
-                   ('C12', ['c01_union', 'c14_']), ('C14', ['c14_']), ('C15', ['c15_'])):
+                   ('C12', ['c01_union', 'c14_', 'c04_counts']), ('C14', ['c14_']), ('C15', ['c15_']), ('C17', ['c17_'])):
     PROPS[_pid]['streams'] = PROPS[_pid]['streams'] + [MIRI_STREAM(_pre)]
 # the schedule stream: real threads against the machine of the translated counter programs
 PROPS['C02']['streams'] = PROPS['C02']['streams'] + [SCHED_STREAM('drops')]
